@@ -154,7 +154,8 @@ VARIANTS = [
     dict(name="grouped/unknown-labels", method="map-reduce", reindex=None, labels_dask=True, expected=False),
     dict(name="cohorts", method="cohorts", reindex=None, labels_dask=False, expected=False),
 ]
-SETTINGS = [dict(min_count=None, fill=None), dict(min_count=1, fill=NAN), dict(min_count=2, fill=NAN), dict(min_count=None, fill=0)]
+SETTINGS = [dict(min_count=None, fill=None), dict(min_count=1, fill=NAN), dict(min_count=2, fill=NAN), dict(min_count=None, fill=0),
+            dict(min_count=None, fill=-5.0)]
 
 
 def check_point(res, func, dtype, M, dist, variant, split_every, setting):
@@ -183,7 +184,7 @@ def check_point(res, func, dtype, M, dist, variant, split_every, setting):
         if setting["fill"] is not None:
             kw["fill_value"] = setting["fill"] if func not in ("any", "all") else False
     elif setting["fill"] is not None and setting["fill"] == 0:
-        return  # a plain fill_value needs expected_groups to matter
+        return  # (this setting is meant for the variants with expected_groups)
     elif setting["fill"] is not None:
         kw["fill_value"] = setting["fill"] if func not in ("any", "all") else False
     if setting["min_count"] is not None:
@@ -242,10 +243,18 @@ def check_point(res, func, dtype, M, dist, variant, split_every, setting):
         scope = scope | below
         if func in ("any", "all"):
             scope = scope & ~below
+    either = np.zeros(B, dtype=bool)
     if (fill is not None and mc is None) or (func in ("nanmax", "nanmin") and mc is None):
-        scope = scope & (cnt > 0)  # flox's fill convention for groups without a valid member (C05)
+        # flox's fill convention for groups without a valid member (C05): there the result must be NumPy's value OR the
+        # requested fill (never anything else, e.g. a leaked +-inf sentinel)
+        either = scope & (cnt == 0)
+        scope = scope & (cnt > 0)
     rtol = 1e-9
     bad = rm.mismatch(obs[:, 0].astype(float), exp, rtol=rtol) & scope
+    if either.any() and not func.startswith("u_"):
+        fillv = np.full(B, np.nan if fill is None else float(fill))
+        neither = rm.mismatch(obs[:, 0].astype(float), exp, rtol=rtol) & rm.mismatch(obs[:, 0].astype(float), fillv, rtol=rtol) & either
+        bad = bad | neither
     if bad.any():
         r = int(np.argwhere(bad)[0][0])
         res.outcomes["mismatch"] += 1
